@@ -88,6 +88,10 @@ func AuthenticateObject(obj object.Object, fsChain HistoricN3ScriptRunner, sToke
 
 		k := sha256.Sum256(sessionTokenV2.Marshal())
 		_, err := sTokenCache.AuthenticateTokenV2(k, func() (sessionv2.Token, error) {
+			// signatures alone do not link a delegated token to its origin
+			if err := sessionTokenV2.Validate(resolver); err != nil {
+				return sessionv2.Token{}, fmt.Errorf("invalid session token v2: %w", err)
+			}
 			if err := AuthenticateTokenV2(sessionTokenV2, fsChain); err != nil {
 				return sessionv2.Token{}, fmt.Errorf("session token v2: %w", err)
 			}
